@@ -23,7 +23,7 @@ ASSUMPTIONS = [
     "third decimal",
     "sensors whose bytes lie outside the fetched window of a block are C14's subject and skipped here for that block",
 ]
-MUST = ["values_checked", "footprint_checked", "noninterference_checked", "sentinel_hit", "shifted_window_checked",
+MUST = ["sensor_and_setting_of_one_id", "values_checked", "footprint_checked", "noninterference_checked", "sentinel_hit", "shifted_window_checked",
         "end_to_end_values", "single_read_checked", "sensors_covered"]
 EXHAUSTIVE = {"quick": False, "thorough": False}
 
@@ -228,6 +228,19 @@ def end_to_end(spec, part):
             await inv.read_device_info()
             res["data"] = await inv.read_runtime_data()
             res["sensors"] = inv.sensors()
+            # ids that name a runtime sensor AND a setting (different registers): single reads in either order
+            res["shared"] = []
+            if fam != "ES":
+                sids = {x.id_: x for x in inv.sensors()}
+                for st in inv.settings():
+                    if st.id_ in sids and (st.offset != sids[st.id_].offset):
+                        order = rnd.choice((("sensor", "setting"), ("setting", "sensor"), ("sensor", "setting", "sensor")))
+                        for which in order:
+                            try:
+                                v = await (inv.read_sensor(st.id_) if which == "sensor" else inv.read_setting(st.id_))
+                            except ValueError:
+                                v = None
+                            res["shared"].append((which, sids[st.id_] if which == "sensor" else st, v, order))
 
         run = engine.run_custom({("inv0", port): sim}, flow)
         part.evaluations += 1
@@ -262,6 +275,21 @@ def end_to_end(spec, part):
             if not rs.same(got, want):
                 part.violate(f"C12/{fam}/{type(sn).__name__}/wrong-value-end-to-end",
                              f"{fam} port {port} {sn.id_}@{sn.offset}: registers {own.hex()} reported as {got!r}, documented reading {rs.show(want)}",
+                             {"e2e": True, "seed": spec["seed"], "i": i})
+        for which, sn, got, order in res.get("shared", []):
+            try:
+                span = rs.own_span(sn)
+                own = sim.get_bytes(sn.offset, (span + 1) // 2)[:span]
+                want = rs.ref_value(sn, own)
+            except rs.NoRef:
+                continue
+            except rs.Undecodable:
+                want = None
+            part.count("sensor_and_setting_of_one_id")
+            if not rs.same(got, want):
+                part.violate(f"C12/{fam}/{type(sn).__name__}/wrong-value-end-to-end",
+                             f"{fam} port {port}: id {sn.id_!r} names a sensor and a setting; single reads in the order {order}: the {which} "
+                             f"@{sn.offset} holds {own.hex()} but was reported as {got!r} (documented reading {rs.show(want)})",
                              {"e2e": True, "seed": spec["seed"], "i": i})
         part.see(f"e2e|{fam}|{port}|{style}")
 
